@@ -45,7 +45,7 @@ CLAIMED = {
          "C03_end_to_end_norm: the same for stores that normalise what they are given (from-scratch values taken through the stores). "
          "C03_end_to_end_prod: the same with producers that rewrite dependent sources while the run is going on (from scratch = on the sources as "
          "they are when the run has returned; a refreshed source holds what its producer computes from scratch).", "4/C03"),
- "C04": ("proof", "Lean 4 proof (place-counting invariant) + trace refinement check",
+ "C04": ("proof", "Lean 4 proof (place-counting invariant; random bag and heapq transcription are permutations) + trace refinement check + queue list differential",
          "No node is begun or enqueued twice in any reachable state, every enqueued node is in exactly one place, only graph nodes run "
          "(C04_once, C04_enqueued_once, C04_place, C04_only_graph_nodes). With a registry: `Needed` (stated on the user's plan: the requested output, "
          "an out-of-date stored value, or what feeds one of them directly through nodes without a store) characterises the calls that are part of "
